@@ -2251,8 +2251,8 @@ class Component_Decl(Base):  # R442
             char_length = Char_Length(char_length)
         if newline.startswith("="):
             init = Component_Initialization(newline)
-        else:
-            assert newline == "", repr(newline)
+        elif newline:
+            return None
         return name, array_spec, char_length, init
 
     def tostr(self):
